@@ -162,6 +162,21 @@ _UB_KINDS = [
 ]
 
 
+def _enclosing_function(path, line):
+    """name of the function containing path:line, from the source text (independent of the symbolizer)"""
+    try:
+        src = open(path, errors="replace").read().splitlines()
+    except OSError:
+        return ""
+    for i in range(min(line, len(src)) - 1, -1, -1):
+        l = src[i]
+        if l and not l[0].isspace() and not l.startswith(("//", "#", "}", "/*", "*")) and "(" in l and not l.rstrip().endswith(";"):
+            m = re.search(r"([A-Za-z_][\w]*(?:::[A-Za-z_~][\w]*)*)\s*\(", l)
+            if m and m.group(1) not in ("if", "for", "while", "switch"):
+                return m.group(1)
+    return ""
+
+
 def san_signature(kind, text):
     """mechanism-level signature of a sanitizer report: sanitizer kind + error class + innermost frame in repo code.
     -> (signature, where) where `where` is 'repo' | 'shim' | 'harness' | 'unknown'"""
@@ -173,6 +188,11 @@ def san_signature(kind, text):
                 cls = "ubsan:" + name
                 break
         cls = cls or "ubsan:other"
+        m = re.search(r"(/\S+?):(\d+):\d+: runtime error", head)
+        if m:          # UBSan names the faulting source line itself: no dependence on the (sometimes missing) stack trace
+            where = "shim" if "/native/shim/" in m.group(1) else ("harness" if "/verif/native/" in m.group(1) else "repo")
+            fn = _enclosing_function(m.group(1), int(m.group(2)))
+            return "%s@%s%s" % (cls, m.group(1).split("/")[-1], (":" + fn) if fn else ""), where
     elif "LeakSanitizer" in head:
         cls = "lsan:leak"
     else:
@@ -394,6 +414,9 @@ def _record_event(ctx, flavour, seed, e):
                     ctx.violation(sig, dict(detail, native=info))
     elif t == "timeout":
         ctx.count("fuzz_input_timeouts")
+        ctx.extra.setdefault("timeout_inputs", [])
+        if len(ctx.extra["timeout_inputs"]) < 10:
+            ctx.extra["timeout_inputs"].append(dict(flavour=flavour, fuzz_seed=seed, index=e.get("index")))
     elif t == "leak":
         ctx.count("fuzz_leak_reports")
         sig, _ = san_signature("LeakSanitizer", e["text"])
@@ -415,10 +438,10 @@ def _fuzz(ctx, scratch, M):
     jobs = []
     pos = 0
     while pos < n_asan:
-        jobs.append((exe_a, "asan", lists, fseed, pos, min(b_asan, n_asan - pos), scratch, 20, exe_r))
+        jobs.append((exe_a, "asan", lists, fseed, pos, min(b_asan, n_asan - pos), scratch, 12, exe_r))
         pos += b_asan
     while pos < n_asan + n_rel:
-        jobs.append((exe_r, "rel", lists, fseed, pos, min(b_rel, n_asan + n_rel - pos), scratch, 20, exe_r))
+        jobs.append((exe_r, "rel", lists, fseed, pos, min(b_rel, n_asan + n_rel - pos), scratch, 12, exe_r))
         pos += b_rel
     results = nat.pmap(_run_batch, jobs, nthreads=int(os.environ.get("VERIF_C37_THREADS", "8")))
     classes, msgs, unfinished = {}, {}, 0
@@ -973,17 +996,23 @@ def replay(ctx, path):
         finally:
             shutil.rmtree(scratch, ignore_errors=True)
     else:
-        if rec["signature"].startswith("crash:"):
-            res = par.run("vf.props.c37", "replay_worker", [dict(xml=d["xml"])], nproc=1, timeout=300)[0]
-            print(res)
-            if res is None or "crash" in res:
-                ctx.violation(rec["signature"], dict(xml=d["xml"], result=res))
+        res = par.run("vf.props.c37", "replay_worker", [dict(xml=d["xml"])], nproc=1, timeout=300)[0]
+        print(json.dumps(res, indent=1)[:3000])
+        if res is None or "crash" in res or "exception" in res:
+            scratch = _scratch()
+            try:
+                for sig, info in _native_signature(d["xml"].encode(), scratch, "rel", (res or {}).get("rc"), str((res or {}).get("crash", ""))):
+                    print(sig, str(info)[:1500])
+                    if RESOURCE_RE.search(sig) or RESOURCE_RE.search(str(info)[:300]):
+                        _resource(ctx, "oom@" + _alloc_site(str(info)), d["xml"], dict(xml=d["xml"]), prefix="schema")
+                    else:
+                        ctx.violation(sig, dict(xml=d["xml"], native=info))
+            finally:
+                shutil.rmtree(scratch, ignore_errors=True)
             ctx.case("replay-schema-crash", sample={"kind": d.get("kind")})
             ctx.min_nontrivial = 1
             return
-        R = _Reader()
-        v = R.load(d["xml"])
-        print(json.dumps(v, indent=1))
+        v = res
         templates = schema_templates()
         if rec["signature"].startswith("schema-violation-accepted") and v["parse"] == "ok" and v["compile"] == "ok":
             ctx.violation(rec["signature"], d)
